@@ -723,6 +723,10 @@ def eval_args(E, e, fr):
     for a in e.args:
         if isinstance(a, ast.Starred):
             v = E.eval(a.value, fr)
+            if isinstance(v, Ref) and E.cell(v)[0] == "obj":
+                # *obj of symbolic length: only external functions with a contract for it accept the marker
+                args.append(("star", v))
+                continue
             d = E.iter_desc(v, fr, e)
             if not isinstance(d.length, int):
                 raise Unsupported("star-args of symbolic length")
@@ -1180,6 +1184,8 @@ def comprehension(E, e, fr, kind):
     if ety is None:
         raise Unsupported("comprehension spec needs elem type")
     acc = E.new_symlist(SV(z3.Empty(sort(TList(ety))), TList(ety)))
+    if n is None:
+        return comprehension_has(E, e, fr, g, d, k, spec, acc, restore)
     nt = z3_int(n)
     E.check_invs("inv_init[%d]" % k, spec, fr, {"it": 0, "_acc": acc, "n_iter": SV(nt, TInt)}, e.lineno)
     E.setcell(acc, E.havoc_cell("_acc", E.cell(acc)))
@@ -1202,6 +1208,37 @@ def comprehension(E, e, fr, kind):
                                                          "n_iter": SV(nt, TInt)}, e.lineno)
         raise PathEnd()
     restore()
+    ee = dict(fr.env)
+    ee.update({"it": it, "_acc": acc})
+    for (ln, exprs) in spec.get("exit_hints", []):
+        E.add_hint(ln, exprs, ee)
+    return acc
+
+
+def comprehension_has(E, e, fr, g, d, k, spec, acc, restore):
+    """list comprehension over an iterable without closed-form length (range with symbolic step)"""
+    def henv(itv):
+        ev = {"it": itv, "_acc": acc}
+        if isinstance(g.target, ast.Name):
+            ev[g.target.id] = d.get(itv)
+        return ev
+    E.check_invs("inv_init[%d]" % k, spec, fr, henv(0), e.lineno)
+    E.setcell(acc, E.havoc_cell("_acc", E.cell(acc)))
+    it = E.fresh("it", TInt)
+    E.assume(z3.And(it.t >= 0, z3.Or(it.t == 0, d.has(it.t - 1))))
+    E.assume_invs(spec, fr, henv(it))
+    if E.fork(d.has(it.t)):
+        E.assign(g.target, d.get(it), fr)
+        if all(E.truth(E.eval(c, fr)) for c in g.ifs):
+            v = E.eval(e.elt, fr)
+            call_method(E, acc, "append", [v], {}, fr, e)
+        E.check_invs("inv_preserved[%d]" % k, spec, fr, henv(SV(it.t + 1, TInt)), e.lineno)
+        raise PathEnd()
+    restore()
+    ee = dict(fr.env)
+    ee.update(henv(it))
+    for (ln, exprs) in spec.get("exit_hints", []):
+        E.add_hint(ln, exprs, ee)
     return acc
 
 
